@@ -6,7 +6,15 @@ from sa import effects as E
 
 
 def _norm(e):
-    return ast.dump(e, annotate_fields=False, include_attributes=False) if e is not None else None
+    if e is None:
+        return None
+    # int(0) == 0, float(0.0) == 0.0: compare literal values
+    if isinstance(e, ast.Call) and isinstance(e.func, ast.Name) and e.func.id in ('int', 'float') and len(e.args) == 1 and isinstance(e.args[0], ast.Constant) \
+            and isinstance(e.args[0].value, (int, float)):
+        return 'const:%r' % (int(e.args[0].value) if e.func.id == 'int' else float(e.args[0].value),)
+    if isinstance(e, ast.Constant) and isinstance(e.value, (int, float)) and not isinstance(e.value, bool):
+        return 'const:%r' % (e.value,)
+    return ast.dump(e, annotate_fields=False, include_attributes=False)
 
 
 def _init_table(ix, cls):
